@@ -4,8 +4,9 @@
  it and passes without it. Results are written into seeded/<id>/meta.json under "confirmed"."""
 import glob, json, os, re, subprocess, sys, time
 ROOT = os.path.dirname(os.path.dirname(os.path.abspath(__file__)))
-W = "/tmp/mconf"
-ENV = dict(os.environ, CARGO_NET_OFFLINE="true", CARGO_TARGET_DIR="/tmp/mconf-target")
+K = os.environ.get("K", "")
+W = "/tmp/mconf" + K
+ENV = dict(os.environ, CARGO_NET_OFFLINE="true", CARGO_TARGET_DIR="/tmp/mconf-target" + K)
 
 
 def sh(cmd, cwd=None, timeout=3600):
@@ -35,7 +36,7 @@ def main():
         def run_demo():
             if not os.path.isdir(demo):
                 return None, "no demo directory"
-            tmp = "/tmp/mconf-demo"
+            tmp = "/tmp/mconf-demo" + K
             sh("rm -rf %s && cp -r %s %s" % (tmp, demo, tmp))
             for fn in glob.glob(tmp + "/**/Cargo.toml", recursive=True):
                 s = open(fn).read()
